@@ -259,6 +259,16 @@ func tamper(t vlib.TB, c *caseCtx, ct2 []byte, alt string, otherSK kem.PrivateKe
 		vlib.Report(t, "C01/tamper-determinism/"+name, fmt.Sprintf("alt=%s: two decapsulations differ", alt))
 		return
 	}
+	// decapsulating a bad ciphertext (refused or not) leaves the private key as it was: the honest
+	// ciphertext still decapsulates to the honest secret and the key marshals to the same bytes
+	if !lightTamper || e1 != nil {
+		r0, e0 := s.Decapsulate(c.sk, c.ct)
+		skb0, _ := c.sk.MarshalBinary()
+		if e0 != nil || !bytes.Equal(r0, c.ss) || !bytes.Equal(skb0, c.skb) {
+			vlib.Report(t, "C01/key-changed-by-decapsulating-altered-ciphertext/"+name, fmt.Sprintf("alt=%s (decapsulation error: %v): afterwards the honest ciphertext gives err=%v, honest secret=%v, private key bytes unchanged=%v", alt, e1, e0, bytes.Equal(r0, c.ss), bytes.Equal(skb0, c.skb)))
+			return
+		}
+	}
 	if e1 != nil {
 		vlib.Class(sub, "decap=error")
 		if c.si.implicit != "" {
